@@ -42,23 +42,39 @@ def rds(rdtype, ttl, *texts):
 
 
 def build(kind):
-    """a zone with four committed versions; nodes last touched in different versions"""
+    """a zone with six committed versions, all retained: nodes last touched in different versions, and - for the
+    B-tree zone - delegation points added and removed ABOVE already committed descendants, so that nodes are
+    copied only to set / clear the GLUE flag; deletes of names and of rdatasets"""
     Z = (dns.versioned.Zone, dns.btreezone.Zone)[kind]
     z = Z("example.")
     z.set_max_versions(None)
+    inputs = [rds("NS", 300, "ns", "ns2"), rds("A", 300, "10.0.0.1", "10.0.0.2"), rds("MX", 300, "10 a", "20 b")]
+    z.c11_inputs = inputs   # the caller keeps these objects; mutating them later must not reach a snapshot
     with z.writer(True) as t:
         t.replace("@", rds("SOA", 300, "ns hostmaster 1 7200 900 1209600 300"))
-        t.replace("@", rds("NS", 300, "ns", "ns2"))
-        t.replace("a", rds("A", 300, "10.0.0.1", "10.0.0.2"))
+        t.replace("@", inputs[0])
+        t.replace("a", inputs[1])
         t.replace("a", rds("AAAA", 60, "::1"))
-        t.replace("w", rds("MX", 300, "10 a", "20 b"))
+        t.replace("w", inputs[2])
+        t.replace("x.sub", rds("A", 300, "10.0.2.1"))
+        t.replace("y.x.sub", rds("A", 300, "10.0.2.2"))
+        t.replace("y.x.sub", rds("TXT", 300, '"deep"'))
     with z.writer() as t:
-        t.replace("sub", rds("NS", 300, "ns.sub"))
+        t.replace("sub", rds("NS", 300, "ns.sub"))      # delegation above x.sub, y.x.sub: glue-flag copies
         t.replace("ns.sub", rds("A", 300, "10.0.1.1"))
         t.update_serial()
     with z.writer() as t:
         t.replace("b", rds("TXT", 300, '"hello" "world"'))
         t.add("a", 300, dns.rdata.from_text("IN", "A", "10.0.0.3"))
+        t.update_serial()
+    with z.writer() as t:
+        t.delete("sub", "NS")                             # un-delegate: flags cleared on the descendants
+        t.replace("x.sub", rds("NS", 300, "ns.x.sub"))   # nested: x.sub becomes the delegation point
+        t.update_serial()
+    with z.writer() as t:
+        t.delete("w")
+        t.replace("a", rds("AAAA", 60, "::2"))
+        t.delete("x.sub", "NS")
         t.update_serial()
     return z
 
@@ -243,6 +259,10 @@ def short(x):
     return s if len(s) < 90 else s[:87] + "..."
 
 
+class Enough(Exception):
+    pass
+
+
 class Enum:
     def __init__(self, ctx, kind, only=None):
         self.ctx = ctx
@@ -256,7 +276,13 @@ class Enum:
     def fresh(self):
         self.z = build(self.kind)
         self.r = self.z.reader()
+        self.readers = {}
         self.base = dump_zone(self.z)
+
+    def reader_for(self, vi):
+        if vi not in self.readers:
+            self.readers[vi] = self.z.reader(id=self.z._versions[vi].id)
+        return self.readers[vi]
 
     def fail(self, what, role, name, args, **kw):
         self.fails.append({
@@ -265,6 +291,8 @@ class Enum:
             "object": role, "callable": name, "args": [short(a) for a in args],
             "case": [2, self.kind, role, name], **kw,
         })
+        if len(self.fails) >= 10 and not self.only:
+            raise Enough()
 
     def sweep(self, role, get, make_twin, dump_twin, pool, names=None):
         """get() -> the snapshot object (re-fetched after a rebuild)"""
@@ -280,14 +308,20 @@ class Enum:
                 before = dump_twin(t)
                 call(t, name, args)
                 mutated = dump_twin(t) != before
+                local = dump_twin(get())
                 raised = call(get(), name, args)
                 self.evals += 1
                 self.mutating += mutated
-                if dump_zone(self.z) != self.base:
+                # cheap check after every call: the object itself; the deep dump of every retained version
+                # is compared once per callable (below) and immediately when the object changed
+                if dump_twin(get()) != local or (self.only and dump_zone(self.z) != self.base):
                     self.fail("a call changed the snapshot", role, name, args, raised=raised)
                     self.fresh()
                 elif mutated and not raised:
                     self.fail("a mutating call did not raise", role, name, args)
+            if dump_zone(self.z) != self.base:
+                self.fail("a call changed the snapshot", role, name, ("<one of the argument pool>",))
+                self.fresh()
 
     def setattrs(self, role, get, names):
         sentinel = ()
@@ -314,6 +348,21 @@ class Enum:
 
     def run(self, thorough):
         kind = self.kind
+        # --- objects the caller handed to the transaction stay the caller's: mutating them afterwards
+        #     must not change any committed version
+        if not self.only or self.only[0] == "caller's rdataset":
+            for i, r_ in enumerate(self.z.c11_inputs):
+                extra = {T.NS: "zz", T.A: "10.9.9.9", T.MX: "99 zz"}[r_.rdtype]
+                for name, f in (("add", lambda: r_.add(dns.rdata.from_text(IN, r_.rdtype, extra))),
+                                ("update_ttl", lambda: r_.update_ttl(1)), ("clear", lambda: r_.clear())):
+                    if self.only and self.only[1] != name:
+                        continue
+                    f()
+                    self.evals += 1
+                    self.mutating += 1
+                    if dump_zone(self.z) != self.base:
+                        self.fail("a call changed the snapshot", "caller's rdataset", name, (short(r_),))
+                        self.fresh()
         # --- the read transaction
         for name, args in [
             ("add", ("a", 300, dns.rdata.from_text("IN", "A", "10.9.9.9"))),
@@ -331,47 +380,74 @@ class Enum:
                 self.fresh()
             elif not raised:
                 self.fail("a mutating call did not raise", "read transaction", name, args)
-        # --- every retained version (the reader's and the older ones), the zone's view
+        # --- every retained version; every node through every access path; every rdataset
         nver = len(self.z._versions)
-        for vi in range(nver) if thorough else (nver - 1, 0):
+        seen_nodes, seen_rds = set(), set()
+        for vi in range(nver):
             gv = (lambda vi: lambda: self.z._versions[vi])(vi)
             self.setattrs(f"version[{vi}]", gv, ["id", "nodes", "origin", "zone", "delegations", "changed", "zzz"])
             some_node = dns.zone.VersionedNode()
-            self.sweep(f"version[{vi}].nodes", lambda: gv().nodes, twin_map, dump_map,
-                       pool_map(gv().nodes, some_node) if len(gv().nodes) else [()])
-            if not isinstance(gv().nodes, dns.btree.BTreeDict):
-                self.setattrs(f"version[{vi}].nodes", lambda: gv().nodes, ["_odict", "_hash", "zzz"])
-            if kind == 1 and hasattr(gv(), "delegations"):
-                self.sweep(f"version[{vi}].delegations", lambda: gv().delegations, twin_set,
-                           dump_set, pool_set(gv().delegations))
-            # version's own public callables: none may change anything
-            v = gv()
-            for name in public_callables(v):
-                if self.only and self.only != (f"version[{vi}]", name):
-                    continue
-                for args in [(), (N("a"),), (N("a"), T.A, NONE), ("a",), (N("zzz"),)]:
-                    call(gv(), name, args)
-                    self.evals += 1
-                    if dump_zone(self.z) != self.base:
-                        self.fail("a call changed the snapshot", f"version[{vi}]", name, args)
-                        self.fresh()
-            names = list(gv().nodes.keys())
-            for nm in names if thorough else names[:3]:
-                gn = (lambda nm: lambda: gv().nodes[nm])(nm)
-                role = f"version[{vi}] node {nm.to_text()}"
-                self.setattrs(role, gn, ["rdatasets", "id", "flags", "zzz"])
-                self.sweep(role, gn, twin_node, dump_node, pool_node(gn()))
-                for ri in range(len(gn().rdatasets)):
-                    gr = (lambda ri: lambda: gn().rdatasets[ri])(ri)
-                    rrole = role + " rdataset " + T.to_text(gr().rdtype)
-                    self.setattrs(rrole, gr, ["items", "ttl", "rdclass", "rdtype", "covers", "zzz"])
-                    self.sweep(rrole, gr, twin_rdataset, dump_rds, pool_rdataset(gr()))
-                    self.sweep(rrole + " .items", lambda: gr().items, dict, dump_items,
-                               [(), (gr()[0],), (gr()[0], None), ({1: 2},)])
-                    for rdi in range(len(gr())):
-                        rd = (lambda rdi: lambda: gr()[rdi])(rdi)
-                        slots = [s for c in type(rd()).__mro__ for s in getattr(c, "__slots__", ())]
-                        self.setattrs(rrole + " rdata", rd, slots[:6] + ["zzz"])
+            if thorough or vi in (0, nver - 1):
+                self.sweep(f"version[{vi}].nodes", lambda: gv().nodes, twin_map, dump_map,
+                           pool_map(gv().nodes, some_node) if len(gv().nodes) else [()])
+                if not isinstance(gv().nodes, dns.btree.BTreeDict):
+                    self.setattrs(f"version[{vi}].nodes", lambda: gv().nodes, ["_odict", "_hash", "zzz"])
+                if kind == 1 and hasattr(gv(), "delegations"):
+                    self.sweep(f"version[{vi}].delegations", lambda: gv().delegations, twin_set,
+                               dump_set, pool_set(gv().delegations))
+                # version's own public callables: none may change anything
+                v = gv()
+                for name in public_callables(v):
+                    if self.only and self.only != (f"version[{vi}]", name):
+                        continue
+                    for args in [(), (N("a"),), (N("a"), T.A, NONE), ("a",), (N("zzz"),)]:
+                        call(gv(), name, args)
+                        self.evals += 1
+                        if dump_zone(self.z) != self.base:
+                            self.fail("a call changed the snapshot", f"version[{vi}]", name, args)
+                            self.fresh()
+            newest = vi == nver - 1
+            for nm in list(gv().nodes.keys()):
+                paths = [
+                    ("nodes[]", lambda nm=nm: gv().nodes[nm]),
+                    ("nodes.get", lambda nm=nm: gv().nodes.get(nm)),
+                    ("get_node", lambda nm=nm: gv().get_node(nm)),
+                    ("nodes.items", lambda nm=nm: dict(gv().nodes.items())[nm]),
+                    ("items", lambda nm=nm: dict(gv().items())[nm]),
+                    ("reader(id).get_node", lambda nm=nm: self.reader_for(vi).get_node(nm)),
+                ]
+                if newest:
+                    paths += [
+                        ("zone.nodes[]", lambda nm=nm: self.z.nodes[nm]),
+                        ("zone.find_node", lambda nm=nm: self.z.find_node(nm)),
+                        ("zone.get_node", lambda nm=nm: self.z.get_node(nm)),
+                        ("zone[]", lambda nm=nm: self.z[nm]),
+                        ("txn.get_node", lambda nm=nm: self.r.get_node(nm)),
+                    ]
+                for pname, gn in paths:
+                    node = gn()
+                    if id(node) in seen_nodes and not self.only:
+                        continue
+                    seen_nodes.add(id(node))
+                    role = f"version[{vi}] node {nm.to_text()} via {pname}"
+                    if not node.is_immutable():
+                        self.fail("a mutating call did not raise", role, "is_immutable", ("-> False",))
+                    self.setattrs(role, gn, ["rdatasets", "id", "flags", "zzz"])
+                    self.sweep(role, gn, twin_node, dump_node, pool_node(gn()))
+                    for ri in range(len(gn().rdatasets)):
+                        gr = (lambda ri: lambda: gn().rdatasets[ri])(ri)
+                        if id(gr()) in seen_rds and not self.only:
+                            continue
+                        seen_rds.add(id(gr()))
+                        rrole = role + " rdataset " + T.to_text(gr().rdtype)
+                        self.setattrs(rrole, gr, ["items", "ttl", "rdclass", "rdtype", "covers", "zzz"])
+                        self.sweep(rrole, gr, twin_rdataset, dump_rds, pool_rdataset(gr()))
+                        self.sweep(rrole + " .items", lambda: gr().items, dict, dump_items,
+                                   [(), (gr()[0],), (gr()[0], None), ({1: 2},)])
+                        for rdi in range(len(gr())):
+                            rd = (lambda rdi: lambda: gr()[rdi])(rdi)
+                            slots = [s for c in type(rd()).__mro__ for s in getattr(c, "__slots__", ())]
+                            self.setattrs(rrole + " rdata", rd, slots[:6] + ["zzz"])
         # --- what the transaction API hands out
         for nm in ("a", "@", "sub"):
             node = self.r.get_node(N(nm))
@@ -421,6 +497,56 @@ def replay(case):
     return e.fails
 
 
+def big_snapshots(ctx):
+    """snapshot isolation on zones large enough for a multi-level B-tree (t = 127): readers opened at
+    different versions must keep reading exactly what they read when opened while later transactions add,
+    replace and delete hundreds of names (node splits, merges and copy-on-write below the root)"""
+    fails = []
+    rng = ctx.rng
+    n0 = ctx.n(600, 1500)
+    for kind in (0, 1):
+        Z = (dns.versioned.Zone, dns.btreezone.Zone)[kind]
+        z = Z("example.")
+        names = [N("h%04d" % i) for i in range(n0)]
+        with z.writer(True) as t:
+            t.replace("@", rds("SOA", 300, "ns hostmaster 1 7200 900 1209600 300"))
+            for i, nm in enumerate(names):
+                t.replace(nm, rds("A", 300, "10.1.%d.%d" % (i >> 8, i & 255)))
+        held = []
+
+        def snap(txn):
+            return tuple((nm.to_text(), dump_rds(r)) for nm, r in sorted(txn.iterate_rdatasets(), key=lambda x: x[0]))
+
+        live = list(names)
+        for rnd in range(ctx.n(5, 10)):
+            txn = z.reader()
+            held.append((txn, snap(txn), z._versions[-1].id))
+            with z.writer() as t:
+                rng.shuffle(live)
+                gone, live = live[: len(live) // 3], live[len(live) // 3:]
+                for nm in gone:
+                    t.delete(nm)
+                for nm in live[: len(live) // 4]:
+                    t.replace(nm, rds("A", 300, "10.2.%d.%d" % (rnd, rng.randrange(256))))
+                fresh = [N("g%d-%04d" % (rnd, i)) for i in range(n0 // 3)]
+                for nm in fresh:
+                    t.replace(nm, rds("A", 300, "10.3.0.1"))
+                live += fresh
+                t.update_serial()
+            for txn_, s0, vid in held:
+                if snap(txn_) != s0:
+                    fails.append({
+                        "kind": "C11:snapshot-isolation:large zone", "sig": "big-snapshot",
+                        "what": "a reader's snapshot changed after a later commit on a large zone",
+                        "zone": Z.__module__ + ".Zone", "reader_version": vid, "after_round": rnd, "names": len(live),
+                    })
+                    return fails
+            if len(held) > 2 and rng.random() < 0.6:
+                held.pop(rng.randrange(len(held)))[0].rollback()
+        ctx.notes["big_snapshot_rounds"] = ctx.notes.get("big_snapshot_rounds", 0) + rnd + 1
+    return fails
+
+
 def check(ctx):
     fails = []
     evals = mut = 0
@@ -434,6 +560,8 @@ def check(ctx):
             continue
         try:
             e.run(not ctx.quick)
+        except Enough:
+            pass
         except Exception as ex:  # noqa
             import traceback
             e.fails.append({"kind": "C11:immutability:enumeration crashed", "what": "enumeration crashed",
@@ -441,6 +569,12 @@ def check(ctx):
         fails += e.fails
         evals += e.evals
         mut += e.mutating
+    try:
+        fails += big_snapshots(ctx)
+    except Exception as ex:  # noqa
+        import traceback
+        fails.append({"kind": "C11:snapshot-isolation:crashed", "what": "large-zone snapshot check crashed",
+                      "sig": "big-crash", "text": traceback.format_exc()[-1500:]})
     ctx.notes["extra_evaluations"] = ctx.notes.get("extra_evaluations", 0) + evals
     ctx.notes["extra_nontrivial"] = ctx.notes.get("extra_nontrivial", 0) + mut
     ctx.notes["immutability_calls"] = evals
@@ -449,7 +583,9 @@ def check(ctx):
     seen = set()
     out = []
     for f in fails:
-        key = (f.get("what"), f.get("callable"), f.get("object", "").split(" ")[0], f.get("zone"))
+        obj = f.get("object", "")
+        shape = "rdataset" if " rdataset " in obj else "node" if " node " in obj else obj.split("[")[0]
+        key = (f.get("what"), f.get("callable"), shape, f.get("zone"))
         if key in seen:
             continue
         seen.add(key)
